@@ -85,6 +85,10 @@ func (sg *StatusGen) handleInternalRequest(proxy *model.Proxy, w *model.WatchedR
 		log.Warnf("proxy %s is not authorized to receive debug info. Ensure you are connecting over TLS port and are authenticated.", proxy.ID)
 		return nil, model.DefaultXdsLogDetails, grpcstatus.Error(codes.Unauthenticated, "authentication required")
 	}
+	// An identity without a namespace proves no namespace; an empty caller namespace must not read as "unrestricted".
+	if features.EnableDebugEndpointAuth && proxy.VerifiedIdentity != nil && proxy.VerifiedIdentity.Namespace == "" {
+		return nil, model.DefaultXdsLogDetails, grpcstatus.Error(codes.PermissionDenied, "debug info is not available for an identity without namespace")
+	}
 
 	// Non-system callers are restricted to proxies in their own namespace.
 	// Empty callerNamespace means unrestricted (auth disabled, caller from system namespace, or in allow-list).
